@@ -27,7 +27,11 @@ Line ==
        [] e.k = "oopside" -> e.started = 0 /\ UNCHANGED vars
        \* a pipe describes the actual connection and the endpoint that created it
        [] e.k = "opipe" -> e.local /\ e.remote /\ e.dialer /\ e.listener /\ e.addr /\ e.idok /\ UNCHANGED vars
-       [] e.k \in {"opipetls", "opipepid"} -> e.ok = TRUE /\ UNCHANGED vars
+       [] e.k = "opipepid" -> e.ok = TRUE /\ UNCHANGED vars
+       \* the TLS state a pipe reports is that of the connection it is: negotiated, with a protocol version and a cipher
+       \* suite - on the dialing and on the accepting side, and the same on both
+       [] e.k = "opipetls" -> e.ok = TRUE /\ e.complete = TRUE /\ e.ver # 0 /\ e.cs # 0 /\ UNCHANGED vars
+       [] e.k = "opipetlsx" -> e.same = TRUE /\ UNCHANGED vars
        \* the accepting side's view of the connection is the dialing side's the other way round, on the bound port
        [] e.k = "opipex" -> e.ok = TRUE /\ UNCHANGED vars
        \* ... and the process at its far end (its process, user and group id, each its own)
